@@ -539,6 +539,48 @@ fn c13_completed_release() {
     kani::cover!(!take && order == 0);
 }
 
+/// Wind-down (cancelled while a Runnable exists, any wake count INCLUDING 0): releasing the remaining handles — even the
+/// last reference — never touches the future, which the Runnable still owns; the Runnable then releases it exactly once.
+#[kani::proof]
+#[kani::unwind(5)]
+fn c13_release_handles_in_winddown() {
+    let (p, r, c, ptr) = fresh();
+    unsafe {
+        READY_AT = 0;
+        SAVE_WAKER = true;
+    }
+    // bring a waker clone into existence through a first poll, then put the task back into a scheduled state
+    r.run();
+    unsafe { SAVE_WAKER = false };
+    let wk = unsafe { SAVED_WAKER.take().unwrap() };
+    wk.wake_by_ref();
+    let r2 = unsafe { SCHED_SLOT.take().unwrap() };
+    let w = any_wakes(0);
+    let x = any_surplus();
+    // Wind-down: POLLING | CLOSED; the token was consumed by cancel(); live handles: promise + waker (+ surplus)
+    set_state(ptr, mk(true, true, 2 + x, w));
+    core::mem::forget(c);
+    let first: bool = kani::any();
+    if first {
+        drop(p);
+        drop(wk);
+    } else {
+        drop(wk);
+        drop(p);
+    }
+    unsafe { assert!(FUT_DROPS == 0 && OUT_DROPS == 0, "a handle released the future that the live Runnable owns") };
+    let s = state_of(ptr);
+    assert!(polling(s) && closed(s) && refs(s) == x && wakes(s) == w);
+    let run: bool = kani::any();
+    if run {
+        r2.run();
+    } else {
+        drop(r2);
+    }
+    unsafe { assert!(POLLS == 1 && FUT_DROPS == 1 && OUT_DROPS == 0) };
+    kani::cover!(w == 0 && x == 0 && run);
+}
+
 // ======================================================================================= wake by value (zero-sized scheduling function)
 
 fn by_val_body<Sz>(s: Sz, only_handle: bool)
